@@ -8,7 +8,7 @@ from argh import hx
 PROP = "C05"
 BATCH = 20
 RULE = ("case = (ordered list of key specifications, abbreviations on/off). Specifications come from a 25-spec universe "
-        "built from shorts {a,b,c,i} and longs {in, inp, input, input-file, input-dir, out, o2, i-o} (prefix chains, with and "
+        "(26 with the positional key '-') built from shorts {a,b,c,i} and longs {in, inp, input, input-file, input-dir, out, o2, i-o} (prefix chains, with and "
         "without leading dashes, 'short,long' in both orders). quick: every set of <= 2 specs in every order (exhaustive) "
         "+ random sets of 3-6 specs in 4 random orders; thorough: every set of <= 3 specs in every definition order "
         "(exhaustive, 12 720 ordered lists) x {abbr on, off} + random larger sets. Every argument has its own int slot; "
@@ -22,7 +22,7 @@ ASSUMPTIONS = ["one-character long keys and one-character prefixes are not probe
 UNIVERSE = ["a", "b", "i", "-c",
             "in", "inp", "input", "--input-file", "input-dir", "out", "o2",
             "a,in", "b,in", "a,inp", "i,input", "input,c", "-b,--input-file", "c,input-dir", "i,out", "a,out",
-            "b,o2", "c,o2", "i,in", "input-dir,a", "i-o"]
+            "b,o2", "c,o2", "i,in", "input-dir,a", "i-o", "-"]
 LONGS = ["in", "inp", "input", "input-file", "input-dir", "out", "o2", "i-o"]
 SHORTS = ["a", "b", "c", "i"]
 
@@ -64,6 +64,10 @@ def model(specs):
     """-> (accepted flags, short owner map, long owner map)"""
     so, lo, acc = {}, {}, []
     for i, sp in enumerate(specs):
+        if sp == "-":
+            # the positional argument: no key at all, it conflicts with nothing (the universe holds it once)
+            acc.append(True)
+            continue
         s, l = parse_spec(sp)
         if (s and s in so) or (l and l in lo):
             acc.append(False)
@@ -88,6 +92,9 @@ def probes():
     # a word that EXTENDS a long key designates nothing (it is neither the key nor an abbreviation of it)
     for l in LONGS:
         p.append(("--" + l + "zz", "long", l + "zz"))
+    # short keys nobody defines: unknown, also when a positional argument exists
+    p.append(("-q", "short", "q"))
+    p.append(("-y", "short", "y"))
     return p
 
 
@@ -110,7 +117,7 @@ def gen_case(seed, idx, tier):
         # some of the keys open a sub-group (an argument whose "value" is another handler with the argument -z): they live in
         # the same key space and obey the same lookup rules
         if rng.random() < 0.4:
-            subgroup = set(i for i in range(k) if rng.random() < 0.35)
+            subgroup = set(i for i in range(k) if rng.random() < 0.35 and order[i] != "-")
     flags = 0 if abbr else argh.HF["noAbbr"]
     defs = "".join(("SGT i%d %s\n" % (i, hx(sp))) if i in subgroup else ("AT i%d %s %s\n" % (i, hx(sp), hx("d"))) for i, sp in enumerate(order))
     c.meta.update(order=order, abbr=abbr, probes=[], subgroup=sorted(subgroup))
